@@ -232,7 +232,7 @@ class StreamSock(SimSocketBase):
         if self.conn is None:
             return 0
         cond = 0
-        if self.rxbuf or self.rx_eof or self.rx_err:
+        if self.rxbuf or self.rx_eof or self.rx_err or getattr(self, 'spurious_in', False):
             cond |= IO_IN
         if self.rx_err:
             cond |= IO_ERR | IO_HUP
@@ -383,6 +383,12 @@ class StreamSock(SimSocketBase):
             del self.rxbuf[:size]
             wld.log('tcp-recv', self.conn.cid, self.rx.name, len(data))
             return data
+        if getattr(self, 'spurious_in', False):
+            # the readiness notification was spurious (legal for poll/select): nothing to read after all
+            self.spurious_in = False
+            wld.count('fault.spurious_readable')
+            wld.log('tcp-spurious-readable', self.conn.cid, self.rx.name)
+            raise BlockingIOError(errno.EAGAIN, 'Resource temporarily unavailable')
         if self.rx_eof:
             wld.log('tcp-recv-eof', self.conn.cid, self.rx.name)
             return b''
